@@ -51,7 +51,7 @@ def model_check(rep, tier, scratch):
     return rep
 
 
-def gen_histories(n, length, seed, scratch, has_file, budgets=('zero', 'one', 'bm1', 'bp1', 'b5', 'inf'),
+def gen_histories(n, length, seed, scratch, has_file, budgets=('zero', 'one', 'bm1', 'bp1', 'b5', 'b15', 'inf'),
                   observers=OBSERVERS):
     """Histories sampled by TLC from Driver.tla."""
     cfg = os.path.join(scratch, 'Driver_%d_%d.cfg' % (length, seed))
@@ -92,6 +92,8 @@ def history_to_cmds(h, n_batch, n_eff_small=8, n_eff_large=60):
                 kw['n_like_rel'] = n_batch + 1
             elif b == 'b5':
                 kw['n_like_rel'] = 5 * n_batch
+            elif b == 'b15':
+                kw['n_like_rel'] = 15 * n_batch
             else:
                 kw['n_like_rel'] = 90 * n_batch        # "inf": bounded for cost, large enough to converge
             cmds.append(['run', kw])
@@ -138,15 +140,18 @@ SCENARIOS = [
     [R('inf', n_eff='small', discard=True), RES, R('inf', n_shell=6, discard=True), T('bad'), P, O('occupation')],
     [R('zero'), R('one'), R('bm1'), T('T'), T('F'), R('inf', discard=True), R('one', n_shell=25, discard=True), P],
     [R('inf', timeout0=True), T('T'), R('inf', n_eff='small', discard=False), P, R('bp1', n_shell=25), P],
+    # resumes in the middle of exploration, between a bound insertion and the next one (transfer candidates alive)
+    [R('b15'), RES, R('b5'), RES, R('b5'), RES, R('b15'), RES, R('inf', discard=True), P],
+    [R('b15', discard=True), R('b15'), RES, P, R('b15'), O('occupation'), RES, R('inf', n_eff='small'), P],
 ]
 
 
 def scenario_configs(seed, filepath=True):
-    kinds = ['gauss', 'two', 'plateau', 'wrap', 'ring', 'gauss', 'plateau', 'two']
-    blobs = ['none', 'float', 'multi', 'int', 'none', 'array', 'none', 'struct']
+    kinds = ['gauss', 'two', 'plateau', 'wrap', 'ring', 'gauss', 'plateau', 'two', 'gauss', 'two']
+    blobs = ['none', 'float', 'multi', 'int', 'none', 'array', 'none', 'struct', 'multi', 'float']
     cfgs = []
     for i, h in enumerate(SCENARIOS):
-        nb = [4, 5, 2, 4, 4, 3, 4, 5][i]
+        nb = [4, 5, 2, 4, 4, 3, 4, 5, 4, 3][i]
         c = dict(kind=kinds[i], blob=blobs[i], n_batch=nb, n_live=16, n_networks=1 if i in (1, 4) else 0,
                  seed=300 + seed * 11 + i, mseed=seed, filepath=filepath, n_points_min=4, history=history_to_cmds(h, nb))
         if c['kind'] == 'wrap':
